@@ -7,7 +7,7 @@ StClass(st) == IF Is2xx(st) THEN (IF st = 207 THEN "207" ELSE "2xx") ELSE IF st 
 Why(e) == IF e.panic THEN "panic" ELSE IF e.hang THEN "hang"
           ELSE IF e.err # ErrExpected(e.kind, e) THEN (IF e.err THEN "unexpected-error" ELSE "error-swallowed")
           ELSE IF ~Is2xx(e.st) /\ e.code # e.st THEN "status-code-not-carried code=" \o ToString(e.code)
-          ELSE IF CondExpected(e) /\ ~e.cond THEN "dav-error-condition-lost"
+          ELSE IF (CondExpected(e) \/ e.place \in RErrPlaces) /\ ~e.cond THEN "dav-error-condition-lost"
           ELSE IF e.err /\ e.items # 0 THEN "data-returned-with-error"
           ELSE "sync-deletion-accounting"
 IcalPeek == "github.com/emersion/go-ical.(*lineDecoder).peek"
